@@ -16,9 +16,13 @@ def check(ctx):
     core2.sched_run_definitions(ctx, "C08", want_equiv=True)
     core2.mgr_scheduler_per_component(ctx, "C08")
     core3.mgr_rejections(ctx, "C08")
+    from . import core9
+
+    core9.scheduler_consults_order(ctx, "C08")
 
 
 MUTANTS = [
+    ("provided-relations-dropped", M, "for elem in chain(self.transactions, self.methods, provided_methods):", "for elem in chain(self.transactions, self.methods):"),
     ("left-right-swapped", M, "                case Priority.LEFT:\n                    pgr[end].add(begin)\n                case Priority.RIGHT:\n                    pgr[begin].add(end)", "                case Priority.LEFT:\n                    pgr[begin].add(end)\n                case Priority.RIGHT:\n                    pgr[end].add(begin)"),
     ("right-like-left", M, "                case Priority.RIGHT:\n                    pgr[begin].add(end)", "                case Priority.RIGHT:\n                    pgr[end].add(begin)"),
     ("no-reverse", M, "networkx.DiGraph(pgr).reverse(), key=lambda t: len(cgr[t])", "networkx.DiGraph(pgr), key=lambda t: len(cgr[t])"),
